@@ -173,7 +173,15 @@ impl Drop for RefinedTcpStream {
 
 impl Read for RefinedTcpStream {
     fn read(&mut self, buf: &mut [u8]) -> IoResult<usize> {
-        self.stream.read(buf)
+        // a read interrupted by a signal has transferred nothing and is simply repeated: the
+        // readers stacked on this one (body buffering, discarding an unread body, the chunk
+        // decoder) do not expect to be called again after an error
+        loop {
+            match self.stream.read(buf) {
+                Err(ref e) if e.kind() == std::io::ErrorKind::Interrupted => continue,
+                other => return other,
+            }
+        }
     }
 }
 
